@@ -617,3 +617,28 @@ pub fn seg_sparse_cases(prop: &'static str) -> BoxedStrategy<Case> {
         })
         .boxed()
 }
+
+/// The whole universe of n keys inserted in random order, most entries short-lived, then the clock
+/// moves past their expirations and the tree is exported: mass expiry inside the export itself, on
+/// arenas that are (often exactly) full - hint n+1, or 8 with its growth steps.
+pub fn key_full_universe_cases(prop: &'static str, coll: &'static str) -> BoxedStrategy<Case> {
+    (1..=70i64, 0..3u8, caps(), 0..=3i64, 1..=3i64)
+        .prop_flat_map(move |(n, capsel, cap0, survivors, adv)| {
+            let cap = match capsel {
+                0 => n + 1,
+                1 => 8,
+                _ => cap0,
+            };
+            // `survivors` of the n inserts (at random positions) get a long life
+            let ins = (0..=n - 1, prop_oneof![12 => Just(1i64), 2 => Just(2i64), (survivors as u32) => Just(60i64)]).prop_map(|(sel, d)| RawOp::new(K_INS, &[sel, d]));
+            (prop::collection::vec(ins, n as usize..=n as usize), 0..=2i64).prop_map(move |(mut ops, dt)| {
+                ops.push(RawOp::new(K_ADV, &[adv]));
+                ops.push(RawOp::new(K_EXPORT, &[dt]));
+                let mut c = Case::new(prop, "key");
+                c.set("coll", coll).set("cap", cap).set("U", n);
+                c.ops = ops;
+                c
+            })
+        })
+        .boxed()
+}
